@@ -301,6 +301,10 @@ def x_extreme(draw):
     if k == "macro_expand":
         lv = min(n, 16)
         return "#define D0 1\n" + "".join("#define D%d D%d + D%d\n" % (i, i - 1, i - 1) for i in range(1, lv + 1)) + "int f() { return D%d; }\n" % lv
+    if k == "macro_args" and draw(st.booleans()):
+        # a call with more arguments than the macro has (and than any macro can have)
+        m = draw(st.sampled_from([2, 24, 25, 26, 40, 200]))
+        return "#define SQ(x) ((x) * (x))\n#define TWO(a, b) ((a) + (b))\nint f() { return SQ(" + ",".join("1" for _ in range(m)) + "); }\nint g() { return TWO(" + ",".join("" for _ in range(m)) + "); }\n"
     if k == "macro_args":
         m = min(n, 40)
         return "#define MA(" + ",".join("p%d" % i for i in range(m)) + ") (" + "+".join("p%d" % i for i in range(m)) + ")\nint f() { return MA(" + ",".join("1" for _ in range(m)) + "); }\n"
